@@ -144,6 +144,39 @@ func genAgg(t *rapid.T) Generated {
 func genAggRule(t *rapid.T, schema []PredInfo, head string, nKeys, nRed int, labels map[string]bool) (Rule, bool) {
 	g := &ruleGen{t: t, bound: map[byte][]string{}, labels: labels}
 	var body []Lit
+	if nKeys == 0 && rapid.IntRange(0, 7).Draw(t, "groundBody") == 0 {
+		// A body without any variable: ground atoms, negated ground atoms, ground comparisons. It has exactly one
+		// solution (the empty assignment) when every literal holds and none otherwise.
+		n := rapid.IntRange(1, 3).Draw(t, "nGround")
+		for i := 0; i < n; i++ {
+			p := rapid.SampledFrom(schema).Draw(t, "groundPred")
+			a := Atom{Pred: p.Name, Args: []Term{}}
+			for c := 0; c < len(p.Cols); c++ {
+				typ := p.Cols[c]
+				if typ == 'm' {
+					typ = 'n'
+				}
+				a.Args = append(a.Args, Const(genValue(t, typ)))
+			}
+			switch k := rapid.IntRange(0, 9).Draw(t, "groundKind"); {
+			case k < 6 || i == 0:
+				body = append(body, PosLit(a))
+			case k < 9:
+				body = append(body, NegLit(a))
+			default:
+				body = append(body, CmpLit("<", Num(rapid.Int64Range(0, 2).Draw(t, "gc1")), Num(rapid.Int64Range(0, 2).Draw(t, "gc2"))))
+			}
+		}
+		labels["ground-agg-body"] = true
+		do := &Do{}
+		h := Atom{Pred: head, Args: []Term{}}
+		for i := 0; i < nRed; i++ {
+			rv := fmt.Sprintf("R%d", i)
+			do.Lets = append(do.Lets, LetStmt{Var: rv, Fn: Fn("fn:count")})
+			h.Args = append(h.Args, Var(rv))
+		}
+		return Rule{Head: h, Body: body, Do: do}, true
+	}
 	nPos := rapid.SampledFrom([]int{1, 1, 1, 1, 2, 2, 3}).Draw(t, "aggPos")
 	for i := 0; i < nPos; i++ {
 		p := rapid.SampledFrom(schema).Draw(t, "aggPred")
@@ -203,6 +236,28 @@ func genAggRule(t *rapid.T, schema []PredInfo, head string, nKeys, nRed int, lab
 			labels["agg-eq-def"] = true
 		}
 		labels["agg-filter"] = true
+	}
+	// variables bound only by the output positions of a structural built-in predicate
+	if rapid.IntRange(0, 4).Draw(t, "aggStruct") == 0 && len(g.bound['n']) > 0 {
+		x := rapid.SampledFrom(g.bound['n']).Draw(t, "asx")
+		y := rapid.SampledFrom(g.bound['n']).Draw(t, "asy")
+		switch rapid.IntRange(0, 2).Draw(t, "asKind") {
+		case 0:
+			l, z := g.fresh('l'), g.fresh('n')
+			body = append(body, EqLit(Var(l), Fn("fn:list", Var(x), Var(y))), PosLit(Atom{Pred: ":list:member", Args: []Term{Var(z), Var(l)}}))
+			g.bind('n', z)
+		case 1:
+			l, hd, tl := g.fresh('l'), g.fresh('n'), g.fresh('l')
+			body = append(body, EqLit(Var(l), Fn("fn:list", Var(x), Var(y))), PosLit(Atom{Pred: ":match_cons", Args: []Term{Var(l), Var(hd), Var(tl)}}))
+			g.bind('n', hd)
+			g.bind('l', tl)
+		default:
+			pr, a, b := g.fresh('p'), g.fresh('n'), g.fresh('n')
+			body = append(body, EqLit(Var(pr), Fn("fn:pair", Var(x), Var(y))), PosLit(Atom{Pred: ":match_pair", Args: []Term{Var(pr), Var(a), Var(b)}}))
+			g.bind('n', a)
+			g.bind('n', b)
+		}
+		labels["agg-builtin-bound-var"] = true
 	}
 	// keys: distinct bound variables of any type
 	var all []string
